@@ -54,12 +54,12 @@ def patterns(maxlen):
 
 
 def bounds(tier, seed):
-    return {"pattern_alphabet": SIGMA, "max_pattern_len": 4 if tier == "quick" else 6, "paragraph_menu": 12, "paragraph_sequences": 3,
+    return {"pattern_alphabet": SIGMA, "max_pattern_len": 4 if tier == "quick" else 7, "paragraph_menu": 12, "paragraph_sequences": 3,
             "field_variants": 36, "paths_in_tree": len(PATHS), "fault_points": ["open(REUSE.toml, 'w')", "REUSE.toml is a directory", "REUSE.toml is a dangling symlink", "unlink(dep5)"]}
 
 
 def cases(tier, seed):
-    L = 4 if tier == "quick" else 6
+    L = 4 if tier == "quick" else 7
     for p in patterns(L):
         yield {"k": "pat", "pats": [p]}
     short = list(patterns(2))
